@@ -311,7 +311,15 @@ func genWG(rng *hx.Rng, n int) []string {
 
 func genStress(rng *hx.Rng, kind string, scale int) string {
 	seed := rng.U64()
-	it := func(lo, hi int) int { return rng.Range(lo, hi) }
+	// two thirds of the scenarios are short bursts (1-4 calls per goroutine): what is compared is the state after the
+	// last calls, so many short rounds expose a stale final value far more often than a few long ones
+	it := func(lo, hi int) int {
+		if rng.Chance(2, 3) {
+			return rng.Range(1, 4)
+		}
+
+		return rng.Range(lo, hi)
+	}
 	switch kind {
 	case "dvar":
 		return fmt.Sprintf("stress dvar %s %d %d %d %d %d %d", hx.Pick(rng, []string{"sum", "lin", "max", "firstnz", "parity"}),
@@ -327,7 +335,7 @@ func genStress(rng *hx.Rng, kind string, scale int) string {
 	case "sorted":
 		return fmt.Sprintf("stress sorted %s %d %d", hx.Pick(rng, []string{"plain", "less"}), it(20, 200), seed)
 	case "sortedrace":
-		return fmt.Sprintf("stress sortedrace %s %d %d", hx.Pick(rng, []string{"plain", "less"}), it(200, 1500), seed)
+		return fmt.Sprintf("stress sortedrace %s %d %d", hx.Pick(rng, []string{"plain", "less"}), rng.Range(20, 1500), seed)
 	case "evict":
 		return fmt.Sprintf("stress evict %d %d", it(10, 60), seed)
 	}
@@ -376,7 +384,7 @@ func main() {
 		runCase(r, sub, gens[i%len(gens)](rng, rng.Range(25, 40)))
 	}
 	kinds := []string{"dvar", "dvar", "inherit", "dset", "sub", "counter", "sorted", "sorted", "sortedrace", "evict", "wg"}
-	nstress := 40 * r.Scale
+	nstress := 150 * r.Scale
 	for i := 0; i < nstress; i++ {
 		for _, k := range kinds {
 			rng, sub := r.Rng.Fork()
